@@ -190,7 +190,7 @@ type Uint struct {
 }
 
 func NewUint(value uint64) *Uint {
-	return &Uint{value: value}
+	return &Uint{value: value, valid: true}
 }
 
 // Set parses and assigns the field value stored as a uint64 number.
@@ -248,7 +248,7 @@ type Float struct {
 }
 
 func NewFloat(value float64) *Float {
-	return &Float{value: value}
+	return &Float{value: value, valid: true}
 }
 
 func (v *Float) IsNull() bool {
